@@ -719,9 +719,7 @@ def compare_sets(pname, snap, got, blocks_after, problems, exact):
         removed_live = want - got
         kept_dead = got - want
         if removed_live:
-            roots = [i for i in removed_live if _visible(snap.by_id[i]) and
-                     R.why_not(snap.by_id[i], allblocks=False) is not None]
-            why = sorted({R.why_not(snap.by_id[i], allblocks=False) for i in roots})[:3] or ["used-by-live-op"]
+            why = _top_reasons(snap, removed_live, allids - got, "used-by-live-op")
             out.append((f"{pname}:removed-live:{'|'.join(why)}",
                         f"{pname} removed ops the reference keeps: {_names(snap, removed_live)}",
                         {"removed_live": sorted(removed_live)[:8], "kept_removable": sorted(kept_dead)[:8]}))
@@ -735,12 +733,27 @@ def compare_sets(pname, snap, got, blocks_after, problems, exact):
     removed = allids - got
     bad = removed - gone_max
     if bad:
-        roots = [i for i in bad if R.why_not(snap.by_id[i]) is not None]
-        why = sorted({R.why_not(snap.by_id[i]) for i in roots})[:3] or ["has-live-uses"]
+        why = _top_reasons(snap, bad, removed, "has-live-uses")
         out.append((f"{pname}:removed-not-trivially-dead:{'|'.join(why)}",
                     f"{pname} removed ops that are not trivially dead: {_names(snap, bad)}",
                     {"removed": sorted(bad)[:8]}))
     return out
+
+
+def _top_reasons(snap, wrong, removed, default):
+    """Reference reasons (terminator / symbol / effect atoms) of the TOP-MOST wrongly removed ops (those whose parent
+    op was not removed as well); ops that merely vanished with a removed ancestor do not name the mechanism."""
+    from xv import c13_ref as R
+    why = set()
+    for i in wrong:
+        n = snap.by_id[i]
+        if n.parent is not None and n.parent.id in removed:
+            continue
+        if not _visible(n):
+            continue
+        why.add(R.why_not(n, allblocks=False) or default)
+    intrinsic = sorted(w for w in why if w != default)
+    return intrinsic[:2] or [default]
 
 
 def _visible(n):
@@ -820,9 +833,16 @@ def work(job):
                 if pi > 0:
                     m = gen_struct(cseed)
                 before_text = None
-                run_pass(pname, m, ctx)
+                rj = {"kind": "struct", "seed": job["seed"], "n": job["n"], "cases": [k], "pass": pname}
                 res["evaluations"] += 1
                 bump(f"runs_{pname}")
+                try:
+                    run_pass(pname, m, ctx)
+                except Exception as e:  # noqa: BLE001  (the pass under test raised on a generated module)
+                    viol(f"{pname}:raised:{type(e).__name__}", f"{pname} raised {type(e).__name__}: {e}"[:300],
+                         {"pass": pname, "module_before": str(gen_struct(cseed)), "replay_job": rj})
+                    flush_hooks({"pass": pname, "replay_job": rj})
+                    continue
                 got, noid, blocks_after, problems = R.collect(m)
                 if noid:
                     raise AssertionError(f"structural module gained ops without id: {noid[:3]}")
@@ -834,7 +854,6 @@ def work(job):
                         bump(f"{pname}_runs_leaving_trivially_dead_ops")
                 if not diffs:
                     bump(f"agree_{pname}")
-                rj = {"kind": "struct", "seed": job["seed"], "n": job["n"], "cases": [k], "pass": pname}
                 for key, summary, detail in diffs:
                     if before_text is None:
                         before_text = str(gen_struct(cseed))
@@ -880,11 +899,31 @@ def work(job):
             triv = set(snap.by_id) - R.trivially_removable(snap)
             for pname in ([only_pass] if only_pass else EXEC_PASSES):
                 m = parse_tagged(text)
-                run_pass(pname, m, ctx)
                 res["evaluations"] += 1
                 bump(f"runs_{pname}")
                 rj = {"kind": "exec", "seed": job["seed"], "n": job["n"], "cases": [k], "pass": pname}
                 wit = {"pass": pname, "program": text, "replay_job": rj}
+                try:
+                    run_pass(pname, m, ctx)
+                except Exception as e:  # noqa: BLE001  (the pass under test raised on a verified program)
+                    attributed = True
+                    if pname == "canonicalize":
+                        # folders / other patterns may raise on their own (C14's subject): does the pass raise the
+                        # same way with every dead-code removal switched off?
+                        try:
+                            _canonicalize_without_dce(text, ctx)
+                        except Exception as e2:  # noqa: BLE001
+                            attributed = type(e2) is not type(e)
+                    if attributed:
+                        viol(f"exec:{pname}:raised:{type(e).__name__}", f"{pname} raised {type(e).__name__}: {e}"[:300],
+                             wit)
+                    else:
+                        bump("exec_canonicalize_raises_also_without_any_dce")
+                        res["sets"].setdefault("canonicalize_exceptions_not_attributed_to_dce", [])
+                        if type(e).__name__ not in res["sets"]["canonicalize_exceptions_not_attributed_to_dce"]:
+                            res["sets"]["canonicalize_exceptions_not_attributed_to_dce"].append(type(e).__name__)
+                    flush_hooks(wit)
+                    continue
                 try:
                     m.verify()
                 except Exception as e:  # noqa: BLE001
